@@ -75,6 +75,8 @@ func C19(e *Env) {
 	r.Rule("R10.2", "regenerating in place (as `make self-compile` does) replaces the file: one os.WriteFile (create, truncate, write) (shared with C10)", 2)
 	r.Rule("R10.1", "the written path is the -o path (shared with C10)", 1)
 	c19StepOrder(e)
+	c19AliasScheme(e, gm)
+	r.Rule("R19.5", "alias naming scheme: every import alias of the checked-in gontainer.go is a word of the regular language of names imports.Alias builds today (prefix, lower-case hexadecimal counter, separator, sanitised last segment)", 1)
 	c19Fragments(e)
 	r.Rule("R19.4", "compile layer vs generated file: for every parameter that is a single function token, the GO: line in gontainer.go is the text FactoryFunction.Create emits today for that token (engine F: symbolic shape of the emitted code, holes filled with the token's own values)", 1)
 	r.Rule("R19.3", "import aliases are numbered by first request, so the generated file depends on the order in which the compile steps run: compiler.New receives validate, meta, params, services, decorators in that order — the order the checked-in file was generated with", 1)
